@@ -48,6 +48,8 @@ THEOREMS = [
     "MysticVerif.C13.compose_identity",
     "MysticVerif.C13.join_and_identity",
     "MysticVerif.C13.join_or_identity",
+    "MysticVerif.C13.join_and_independent",
+    "MysticVerif.C13.join_or_total",
 ]
 
 NAMES = ["a", "b", "c", "d", "spam", "eggs", "foo", "bar", "u", "v", "w", "p", "q", "alpha", "beta", "zed"]
@@ -445,16 +447,16 @@ def run_impl(case):
 
             def work(q):
                 try:
-                    with warnings.catch_warnings():
-                        warnings.simplefilter("ignore")
-                        for _ in range(25):
-                            z = [float(v) for v in cf(list(case["x"]))]
-                            if res[q] is None or not all(num_eq(a, b) for a, b in zip(z, res[q])):
-                                res[q] = z if res[q] is None else "differs between calls: %r / %r" % (res[q], z)
+                    for _ in range(25):
+                        z = [float(v) for v in cf(list(case["x"]))]
+                        if res[q] is None or not all(num_eq(a, b) for a, b in zip(z, res[q])):
+                            res[q] = z if res[q] is None else "differs between calls: %r / %r" % (res[q], z)
                 except Exception as exc:
                     res[q] = "%s: %s" % (type(exc).__name__, exc)
             ths = [threading.Thread(target=work, args=(q,)) for q in range(4)]
-            [t.start() for t in ths]; [t.join() for t in ths]
+            with warnings.catch_warnings():            # not thread-safe: entered once, around all threads
+                warnings.simplefilter("ignore")
+                [t.start() for t in ths]; [t.join() for t in ths]
             bad = [r for r in res if isinstance(r, str) or r is None or not all(num_eq(a, b) for a, b in zip(r, obs["y"]))]
             obs["y_threads"] = bad[0] if bad else res[0]
     return obs
